@@ -1,6 +1,446 @@
 package main
 
-// instrument: scheduling points for the schedule explorer (added later in this file's history).
-func instrument(repo, hooks, out string, replace map[string]string) error { return nil }
+// instrument: scheduling points for the schedule explorer (schedx).
+//
+// Rules (all anchored on the syntax of the CURRENT tree, never on line numbers):
+//
+//  A. package-level mutable variables: every function that mentions one (level 1)
+//     and every function that calls a level-1 function by name (level 2) gets a
+//     vsync.Point before each of its statements.  A variable counts as mutable
+//     unless it lives in errors.go, is initialised by regexp.MustCompile /
+//     errors.New / fmt.Errorf, is the logger, or is a composite-literal table that
+//     is never written anywhere in the package.
+//  B. files that import "sync": the import is redirected to the vsync wrappers, so
+//     every lock operation is a scheduling point; the struct types of that file
+//     reachable from the struct holding the mutex are "shared", and every function
+//     that selects a field with the name of a shared field gets a point before
+//     each statement.
+//
+// Insertions are textual at statement start offsets (no line is added, so panic
+// traces keep the repository's line numbers).
 
-func applyMutation(repo, hooks, out, name string, replace map[string]string) error { return nil }
+import (
+	"encoding/json"
+	"fmt"
+	"go/ast"
+	"go/importer"
+	"go/parser"
+	"go/token"
+	"go/types"
+	"os"
+	"path/filepath"
+	"sort"
+	"strings"
+)
+
+const vsyncPath = "github.com/zerx-lab/wordZero/pkg/vsync"
+
+type instrReport struct {
+	MutableVars map[string][]string `json:"mutable_package_vars"`
+	Level1      map[string][]string `json:"functions_touching_them"`
+	Level2      map[string][]string `json:"their_direct_callers"`
+	SyncFiles   []string            `json:"files_importing_sync"`
+	SharedField map[string][]string `json:"shared_fields"`
+	FieldFuncs  map[string][]string `json:"functions_touching_shared_fields"`
+	Points      int                 `json:"points_inserted"`
+}
+
+func instrument(repo, hooks, out string, replace map[string]string) error {
+	rep := &instrReport{MutableVars: map[string][]string{}, Level1: map[string][]string{}, Level2: map[string][]string{}, SharedField: map[string][]string{}, FieldFuncs: map[string][]string{}}
+	// the virtual package
+	vs, _ := filepath.Glob(filepath.Join(hooks, "vsync", "*.go"))
+	if len(vs) == 0 {
+		return fmt.Errorf("hooks/vsync missing")
+	}
+	for _, f := range vs {
+		replace[filepath.Join(repo, "pkg", "vsync", filepath.Base(f))] = f
+	}
+	for _, pkg := range []string{"document", "style", "markdown"} {
+		if err := instrumentPkg(repo, pkg, out, replace, rep); err != nil {
+			return err
+		}
+	}
+	b, _ := json.MarshalIndent(rep, "", " ")
+	return os.WriteFile(filepath.Join(out, "instrument.json"), b, 0o644)
+}
+
+type fileInfo struct {
+	path string
+	src  []byte
+	f    *ast.File
+}
+
+func funcName(fd *ast.FuncDecl) string { return fd.Name.Name }
+
+func instrumentPkg(repo, pkg, out string, replace map[string]string, rep *instrReport) error {
+	dir := filepath.Join(repo, "pkg", pkg)
+	ents, err := os.ReadDir(dir)
+	if err != nil {
+		return err
+	}
+	fset := token.NewFileSet()
+	var files []*fileInfo
+	var asts []*ast.File
+	for _, e := range ents {
+		n := e.Name()
+		if !strings.HasSuffix(n, ".go") || strings.HasSuffix(n, "_test.go") {
+			continue
+		}
+		p := filepath.Join(dir, n)
+		if _, overridden := replace[p]; overridden {
+			continue // a hook file
+		}
+		src, err := os.ReadFile(p)
+		if err != nil {
+			return err
+		}
+		f, err := parser.ParseFile(fset, p, src, parser.ParseComments)
+		if err != nil {
+			return fmt.Errorf("parse %s: %v", p, err)
+		}
+		files = append(files, &fileInfo{p, src, f})
+		asts = append(asts, f)
+	}
+	info := &types.Info{Selections: map[*ast.SelectorExpr]*types.Selection{}, Uses: map[*ast.Ident]types.Object{}, Defs: map[*ast.Ident]types.Object{}}
+	var terrs []string
+	conf := types.Config{Importer: importer.ForCompiler(fset, "source", nil), Error: func(err error) { terrs = append(terrs, err.Error()) }}
+	tpkg, _ := conf.Check("github.com/zerx-lab/wordZero/pkg/"+pkg, fset, asts, info)
+	if len(terrs) > 0 {
+		return fmt.Errorf("type-checking pkg/%s: %s", pkg, strings.Join(terrs, "; "))
+	}
+	fileOf := func(pos token.Pos) string { return filepath.Base(fset.Position(pos).Filename) }
+	// ---- rule A: mutable package-level variables
+	errType := types.Universe.Lookup("error").Type().Underlying().(*types.Interface)
+	pkgVar := func(id *ast.Ident) *types.Var {
+		if id == nil {
+			return nil
+		}
+		obj := info.Uses[id]
+		if obj == nil {
+			obj = info.Defs[id]
+		}
+		if v, ok := obj.(*types.Var); ok && !v.IsField() && v.Parent() == tpkg.Scope() {
+			return v
+		}
+		return nil
+	}
+	rootIdent := func(e ast.Expr) *ast.Ident {
+		for {
+			switch x := e.(type) {
+			case *ast.Ident:
+				return x
+			case *ast.SelectorExpr:
+				e = x.X
+			case *ast.IndexExpr:
+				e = x.X
+			case *ast.StarExpr:
+				e = x.X
+			case *ast.ParenExpr:
+				e = x.X
+			default:
+				return nil
+			}
+		}
+	}
+	written := map[*types.Var]bool{}
+	literal := map[*types.Var]bool{}
+	for _, fi := range files {
+		for _, d := range fi.f.Decls {
+			if gd, ok := d.(*ast.GenDecl); ok && gd.Tok == token.VAR {
+				for _, s := range gd.Specs {
+					vs := s.(*ast.ValueSpec)
+					for i, nm := range vs.Names {
+						if v, ok := info.Defs[nm].(*types.Var); ok && i < len(vs.Values) {
+							if _, ok := vs.Values[i].(*ast.CompositeLit); ok {
+								literal[v] = true
+							}
+						}
+					}
+				}
+			}
+		}
+		ast.Inspect(fi.f, func(n ast.Node) bool {
+			mark := func(e ast.Expr) {
+				if v := pkgVar(rootIdent(e)); v != nil {
+					written[v] = true
+				}
+			}
+			switch x := n.(type) {
+			case *ast.AssignStmt:
+				for _, l := range x.Lhs {
+					mark(l)
+				}
+			case *ast.IncDecStmt:
+				mark(x.X)
+			case *ast.UnaryExpr:
+				if x.Op == token.AND {
+					mark(x.X)
+				}
+			case *ast.CallExpr:
+				if id, ok := x.Fun.(*ast.Ident); ok && (id.Name == "delete" || id.Name == "copy" || id.Name == "clear") && len(x.Args) > 0 {
+					mark(x.Args[0])
+				}
+			}
+			return true
+		})
+	}
+	mutable := map[*types.Var]bool{}
+	sc := tpkg.Scope()
+	for _, n := range sc.Names() {
+		v, ok := sc.Lookup(n).(*types.Var)
+		if !ok {
+			continue
+		}
+		t := v.Type()
+		exempt := n == "defaultLogger" || types.Implements(t, errType) || t.String() == "*regexp.Regexp"
+		if literal[v] && !written[v] {
+			exempt = true
+		}
+		if b, ok := t.Underlying().(*types.Basic); ok && !written[v] && b.Info()&types.IsConstType != 0 {
+			exempt = true // a never-written scalar
+		}
+		if !exempt {
+			mutable[v] = true
+			rep.MutableVars[pkg] = append(rep.MutableVars[pkg], n)
+		}
+	}
+	level := map[*ast.FuncDecl]int{}
+	l1 := map[types.Object]bool{}
+	for _, fi := range files {
+		for _, d := range fi.f.Decls {
+			fd, ok := d.(*ast.FuncDecl)
+			if !ok || fd.Body == nil {
+				continue
+			}
+			hit := false
+			ast.Inspect(fd.Body, func(n ast.Node) bool {
+				if id, ok := n.(*ast.Ident); ok {
+					if v := pkgVar(id); v != nil && mutable[v] {
+						hit = true
+					}
+				}
+				return !hit
+			})
+			if hit {
+				level[fd] = 1
+				l1[info.Defs[fd.Name]] = true
+				rep.Level1[pkg] = append(rep.Level1[pkg], funcName(fd))
+			}
+		}
+	}
+	for _, fi := range files {
+		for _, d := range fi.f.Decls {
+			fd, ok := d.(*ast.FuncDecl)
+			if !ok || fd.Body == nil || level[fd] != 0 {
+				continue
+			}
+			hit := false
+			ast.Inspect(fd.Body, func(n ast.Node) bool {
+				if c, ok := n.(*ast.CallExpr); ok {
+					switch f := c.Fun.(type) {
+					case *ast.Ident:
+						hit = hit || l1[info.Uses[f]]
+					case *ast.SelectorExpr:
+						hit = hit || l1[info.Uses[f.Sel]]
+					}
+				}
+				return !hit
+			})
+			if hit {
+				level[fd] = 2
+				rep.Level2[pkg] = append(rep.Level2[pkg], funcName(fd))
+			}
+		}
+	}
+	// ---- rule B: files importing sync
+	syncFile := map[*fileInfo]*ast.ImportSpec{}
+	for _, fi := range files {
+		for _, im := range fi.f.Imports {
+			if im.Path.Value == `"sync"` && im.Name == nil {
+				syncFile[fi] = im
+				rep.SyncFiles = append(rep.SyncFiles, filepath.Base(fi.path))
+			}
+		}
+	}
+	shared := map[*types.Named]bool{}
+	isSyncType := func(t types.Type) bool {
+		if n, ok := t.(*types.Named); ok && n.Obj().Pkg() != nil && n.Obj().Pkg().Path() == "sync" {
+			return true
+		}
+		return false
+	}
+	var reachT func(t types.Type, file string)
+	reachT = func(t types.Type, file string) {
+		switch x := t.(type) {
+		case *types.Pointer:
+			reachT(x.Elem(), file)
+		case *types.Slice:
+			reachT(x.Elem(), file)
+		case *types.Array:
+			reachT(x.Elem(), file)
+		case *types.Map:
+			reachT(x.Key(), file)
+			reachT(x.Elem(), file)
+		case *types.Named:
+			if x.Obj().Pkg() != tpkg || shared[x] || fileOf(x.Obj().Pos()) != file {
+				return
+			}
+			if st, ok := x.Underlying().(*types.Struct); ok {
+				shared[x] = true
+				for i := 0; i < st.NumFields(); i++ {
+					reachT(st.Field(i).Type(), file)
+				}
+			}
+		}
+	}
+	for _, n := range sc.Names() {
+		tn, ok := sc.Lookup(n).(*types.TypeName)
+		if !ok {
+			continue
+		}
+		named, ok := tn.Type().(*types.Named)
+		if !ok {
+			continue
+		}
+		st, ok := named.Underlying().(*types.Struct)
+		if !ok {
+			continue
+		}
+		for i := 0; i < st.NumFields(); i++ {
+			if isSyncType(st.Field(i).Type()) {
+				reachT(named, fileOf(tn.Pos()))
+			}
+		}
+	}
+	for n := range shared {
+		rep.SharedField[pkg] = append(rep.SharedField[pkg], n.Obj().Name())
+	}
+	sort.Strings(rep.SharedField[pkg])
+	derefNamed := func(t types.Type) *types.Named {
+		if p, ok := t.(*types.Pointer); ok {
+			t = p.Elem()
+		}
+		n, _ := t.(*types.Named)
+		return n
+	}
+	if len(shared) > 0 {
+		for _, fi := range files {
+			for _, d := range fi.f.Decls {
+				fd, ok := d.(*ast.FuncDecl)
+				if !ok || fd.Body == nil || level[fd] != 0 {
+					continue
+				}
+				hit := false
+				ast.Inspect(fd.Body, func(n ast.Node) bool {
+					if se, ok := n.(*ast.SelectorExpr); ok {
+						if sel := info.Selections[se]; sel != nil && sel.Kind() == types.FieldVal {
+							if nm := derefNamed(sel.Recv()); nm != nil && shared[nm] {
+								hit = true
+							}
+						}
+					}
+					return !hit
+				})
+				if hit {
+					level[fd] = 3
+					rep.FieldFuncs[pkg] = append(rep.FieldFuncs[pkg], funcName(fd))
+				}
+			}
+		}
+	}
+	// ---- emit
+	for _, fi := range files {
+		type ins struct {
+			off  int
+			text string
+		}
+		var inss []ins
+		qual := "vsync"
+		if _, ok := syncFile[fi]; ok {
+			qual = "sync"
+		}
+		base := filepath.Base(fi.path)
+		for _, d := range fi.f.Decls {
+			fd, ok := d.(*ast.FuncDecl)
+			if !ok || fd.Body == nil || level[fd] == 0 {
+				continue
+			}
+			n := 0
+			var lists func(node ast.Node)
+			addList := func(l []ast.Stmt) {
+				for _, s := range l {
+					off := fset.Position(s.Pos()).Offset
+					site := fmt.Sprintf("%s:%s:%d", strings.TrimSuffix(base, ".go"), funcName(fd), n)
+					n++
+					inss = append(inss, ins{off, fmt.Sprintf("%s.Point(%q); ", qual, site)})
+				}
+			}
+			lists = func(node ast.Node) {
+				skip := map[*ast.BlockStmt]bool{} // bodies of switch/select hold clauses, not statements
+				ast.Inspect(node, func(x ast.Node) bool {
+					switch b := x.(type) {
+					case *ast.SwitchStmt:
+						skip[b.Body] = true
+					case *ast.TypeSwitchStmt:
+						skip[b.Body] = true
+					case *ast.SelectStmt:
+						skip[b.Body] = true
+					case *ast.BlockStmt:
+						if !skip[b] {
+							addList(b.List)
+						}
+					case *ast.CaseClause:
+						addList(b.Body)
+					case *ast.CommClause:
+						addList(b.Body)
+					}
+					return true
+				})
+			}
+			lists(fd.Body)
+		}
+		im, isSync := syncFile[fi]
+		if len(inss) == 0 && !isSync {
+			continue
+		}
+		if isSync {
+			off := fset.Position(im.Path.Pos()).Offset
+			inss = append(inss, ins{off, "sync "})
+			// replace the path text itself below
+		} else {
+			off := fset.Position(fi.f.Name.End()).Offset
+			inss = append(inss, ins{off, fmt.Sprintf("; import vsync %q", vsyncPath)})
+		}
+		sort.SliceStable(inss, func(i, j int) bool { return inss[i].off < inss[j].off })
+		var b strings.Builder
+		prev := 0
+		for _, in := range inss {
+			b.Write(fi.src[prev:in.off])
+			b.WriteString(in.text)
+			prev = in.off
+		}
+		b.Write(fi.src[prev:])
+		text := b.String()
+		if isSync {
+			text = strings.Replace(text, `sync "sync"`, fmt.Sprintf("sync %q", vsyncPath), 1)
+		}
+		rep.Points += len(inss) - 1
+		od := filepath.Join(out, "instr", pkg)
+		os.MkdirAll(od, 0o755)
+		op := filepath.Join(od, base)
+		if err := os.WriteFile(op, []byte(text), 0o644); err != nil {
+			return err
+		}
+		replace[fi.path] = op
+	}
+	for _, m := range []map[string][]string{rep.Level1, rep.Level2, rep.FieldFuncs} {
+		for k := range m {
+			sort.Strings(m[k])
+		}
+	}
+	return nil
+}
+
+func applyMutation(repo, hooks, out, name string, replace map[string]string) error {
+	return fmt.Errorf("mutations are applied as patches to a scratch worktree (bin/seedrun), not through the overlay")
+}
